@@ -345,6 +345,60 @@ def r4_levels(cx):
     cx.require("e._name == q" in lams and "f(e._name)" in lams, dn, "a plain name matches by equality, a Boolean by its compiled function on the name", construct="%s" % lams)
 
 
+MUTATORS = ("append", "extend", "insert", "pop", "remove", "clear", "update", "setdefault", "sort", "reverse", "add", "discard", "popitem")
+
+
+def r5_persistent_expressions(cx, mods):
+    """A query expression is a value: building 'base & r' must not change what 'base' means.  Constructors of Boolean combinators (and the helpers they call)
+    may fill their own fresh containers but never modify an operand or anything reached from one."""
+    cx.rule("C20.R5", "building a combined query never modifies its operands", floor=3)
+    qb = cx.repo.module(QB)
+    qi = cx.repo.module(QI)
+    n = 0
+    for m in (qb, qi):
+        for q, c in m.classes():
+            try:
+                if not cx.repo.is_subclass(c, QB + ":Boolean"):
+                    continue
+            except Exception:
+                continue
+            inits = [st for st in c.body if isinstance(st, FUNC_TYPES) and st.name in ("__init__", "__and__", "__or__", "__invert__")]
+            for init in inits:
+                reg = [init]
+                # module-level helpers called from the constructor (whatever their age)
+                for cl in [x for x in ast.walk(init) if isinstance(x, ast.Call) and isinstance(x.func, ast.Name) and m.has(x.func.id) and isinstance(m.get(x.func.id), FUNC_TYPES)]:
+                    reg.append(m.get(cl.func.id))
+                for f in reg:
+                    n += 1
+                    fresh = set()
+                    for a in walk_body(f.body):
+                        if isinstance(a, ast.Assign) and len(a.targets) == 1 and isinstance(a.targets[0], ast.Name):
+                            v = a.value
+                            if isinstance(v, (ast.List, ast.Dict, ast.Set, ast.ListComp, ast.DictComp, ast.SetComp)) or (isinstance(v, ast.Call) and call_name(v) in ("list", "dict", "set", "sorted", "tuple")):
+                                fresh.add(a.targets[0].id)
+                            else:
+                                fresh.discard(a.targets[0].id)
+                    bad = []
+                    for x in walk_body(f.body):
+                        base = None
+                        if isinstance(x, ast.Call) and isinstance(x.func, ast.Attribute) and x.func.attr in MUTATORS:
+                            base = x.func.value
+                        elif isinstance(x, (ast.Subscript, ast.Attribute)) and isinstance(x.ctx, (ast.Store, ast.Del)):
+                            base = x.value
+                        if base is None:
+                            continue
+                        root = base
+                        while isinstance(root, (ast.Attribute, ast.Subscript)):
+                            root = root.value
+                        if isinstance(root, ast.Name) and (root.id in ("self", "env") or (root.id in fresh and root is base)):
+                            continue
+                        bad.append(x)
+                    cx.require(not bad, bad[0] if bad else f, "%s (reached from %s.%s) modifies only the new object's own state or containers it has just created" % (f.name, q, init.name),
+                               construct=short(bad[0]) if bad else "def %s" % f.name)
+    if n < 3:
+        cx.error("expected constructors of All/Any/Not, found %d" % n)
+
+
 def run(cx):
     repo = cx.repo
     cx.extra["explanation"] = ("C20: reconstruction of the code template of both to_pyfunc generators per class and agreement with the connective used by the class's test(); exhaustive dispatch over "
@@ -357,3 +411,4 @@ def run(cx):
     cx.guard(r2_raising)
     cx.guard(r3_order)
     cx.guard(r4_levels)
+    cx.guard(r5_persistent_expressions, mods)
